@@ -166,7 +166,7 @@ def check_edge(edge):
 def alphabet():
     from mc.props import c05
 
-    recs = [r for r in c05.RECS if r.pattern is None]
+    recs = [r for r in c05.RECS + c05.AUX_RECS[:3] if r.pattern is None]
     inits = [i for i in c05.INITS if all(r.pattern is None for r in i)]
     return recs, inits
 
@@ -186,9 +186,13 @@ def run(depth=2, workers=4, keep=False):
             f.write("---- MODULE AddRecordMC ----\nEXTENDS AddRecord\n")
             f.write("MCOps == " + tla_set(ops) + "\n")
             f.write("MCInits == " + tla_set(tla_set(map(tla_rec, i)) for i in inits) + "\n")
+            strs = sorted({x for r in list(recs) + [q for i in inits for q in i] for x in (*r.prefixes, *r.uri_prefixes)})
+            folds = [(x, x.casefold()) for x in strs if x.casefold() != x]
+            body = " [] ".join(f"s = {tla_str(a)} -> {tla_str(b)}" for a, b in folds)
+            f.write("MCFold(s) == " + (f"CASE {body} [] OTHER -> s" if folds else "s") + "\n")
             f.write("====\n")
         with open(os.path.join(work, "AddRecordMC.cfg"), "w") as f:
-            f.write(f"SPECIFICATION Spec\nCONSTANTS\n Ops <- MCOps\n Inits <- MCInits\n Depth = {depth}\nINVARIANTS Unique WellFormed\n")
+            f.write(f"SPECIFICATION Spec\nCONSTANTS\n Ops <- MCOps\n Inits <- MCInits\n Fold <- MCFold\n Depth = {depth}\nINVARIANTS Unique WellFormed\n")
         cmd = ["tlc", "-workers", str(workers), "-noGenerateSpecTE", "-deadlock", "-metadir", os.path.join(work, "meta"),
                "-dump", "dot", os.path.join(work, "graph"), "AddRecordMC"]
         p = subprocess.run(cmd, cwd=work, capture_output=True, text=True, timeout=3600)
